@@ -137,3 +137,17 @@ Theorem trajectory_sparse_eq_dense_prox_newton_direction :
   = @_descent_direction__fit_intercept_False__ws_strategy_subdiff R _ raw_hessian prox_1d subdiff X y w_epoch Xw_epoch grad_ws ws tol.
 Proof. exact descent_direction_sparse_eq_dense_subdiff. Qed.
 Print Assumptions trajectory_sparse_eq_dense_prox_newton_direction.
+
+Theorem trajectory_sparse_eq_dense_prox_newton_direction_fixpoint :
+  forall (raw_hessian : list R -> list R -> res (list R)) (prox_1d : R -> R -> Z -> res R)
+    (n : nat) (M : csc) (X : list (list R)) (y : list R),
+  (forall j, (0 <= j < Z.of_nat (length X))%Z ->
+     exists lo hi, col_bounds M j lo hi /\ wf_col n M lo hi /\ rows_distinct M lo hi /\ mcol X j = Ok (dense_col n M lo hi)) ->
+  (forall Xw h, length Xw = n -> raw_hessian y Xw = Ok h -> length h = n) -> mrows X = Z.of_nat n ->
+  forall w_epoch Xw_epoch grad_ws ws tol,
+  Forall (fun j => (0 <= j < Z.of_nat (length X))%Z) ws -> length Xw_epoch = n ->
+  @_descent_direction_s__fit_intercept_False__ws_strategy_fixpoint R _ raw_hessian prox_1d
+      (cdata M) (cindptr M) (cindices M) y w_epoch Xw_epoch grad_ws ws tol
+  = @_descent_direction__fit_intercept_False__ws_strategy_fixpoint R _ raw_hessian prox_1d X y w_epoch Xw_epoch grad_ws ws tol.
+Proof. exact descent_direction_sparse_eq_dense_fixpoint. Qed.
+Print Assumptions trajectory_sparse_eq_dense_prox_newton_direction_fixpoint.
